@@ -1,9 +1,9 @@
 SPECIFICATION Spec
 CONSTANTS
   MaxSegs = 4
-  SizeSet = {1, 2, 4, 7}
+  MaxDocs = 9
+  SizeSet = {1, 3, 6}
   Policy <- PolA
 CONSTRAINT Bound
-INVARIANTS CandidatesDisjoint CandidatesEligible CandidatesJustified CandidatesNonEmpty LevelsPartition LevelsTight
-PROPERTIES MergeConserves MergeProgress
+INVARIANTS MergeConserves MergeProgress OrderMattersOnlyForTies CandidatesDisjoint CandidatesEligible CandidatesJustified CandidatesNonEmpty LevelsPartition LevelsTight
 CHECK_DEADLOCK FALSE
